@@ -403,7 +403,14 @@ impl StrExt for str {
             // The word characters in ASCII compatible mode (with the `-u` flag) match the
             // definition in the spec: any character not in the set `[A-Za-z0-9_]`.
             let regex = format!(r"(?-u:^|\W|\b){}(?-u:\b|\W|$)", chunks.concat());
-            let re = Regex::new(&regex).expect("regex construction should succeed");
+
+            // The special characters of the pattern are escaped, so the construction can only fail
+            // because the compiled regex exceeds the size limit, which happens with patterns
+            // containing tens of thousands of `?`. Such a pattern is treated as matching nothing
+            // rather than panicking on data that is controlled by the user.
+            let Ok(re) = Regex::new(&regex) else {
+                return false;
+            };
             re.is_match(self.as_bytes())
         } else {
             match self.find(pattern) {
